@@ -91,6 +91,13 @@ async def with_shipped_evaluators(mode: str, cer, factory, text: Optional[str] =
         E.install_hardcoded(cer, data_format=EdifactFormat.MSCONS)
     elif mode == "one-table-provider":
         E.install_one_table_provider(dict(cer.packages or {}))
+    elif mode == "cer-resolver-without-format":
+        E.install_cer_resolver_without_format()
+    elif mode == "json-file-list":
+        import tempfile
+
+        tmpdir = tempfile.mkdtemp(prefix="vf-json-")
+        E.install_json_file_resolver(dict(cer.packages or {}), tmpdir)
     elif mode == "instances":
         E.install_instance_state({k: E.REF[v] for k, v in cer.requirement_constraints.items()}, {k: v.format_constraint_fulfilled for k, v in cer.format_constraints.items()}, cer.hints)
     else:
@@ -98,7 +105,7 @@ async def with_shipped_evaluators(mode: str, cer, factory, text: Optional[str] =
         E.LONG_LIVED[0] = mode == "cer-long-lived"
 
     async def go():
-        if mode in ("cer", "cer-long-lived"):
+        if mode in ("cer", "cer-long-lived", "cer-resolver-without-format"):
             E.set_cer(cer)
         if mode == "one-table-provider":
             E.set_world(E.World("one-table"))
@@ -110,3 +117,7 @@ async def with_shipped_evaluators(mode: str, cer, factory, text: Optional[str] =
     finally:
         E.LONG_LIVED[0] = False
         E.install()
+        if mode == "json-file-list":
+            import shutil
+
+            shutil.rmtree(tmpdir, ignore_errors=True)
